@@ -33,7 +33,14 @@ const (
 	// ErrTemporary is an error that announces itself as transient
 	// (Temporary() == true, like EINTR / EAGAIN) and keeps coming back.
 	ErrTemporary
+	// ErrPanic: the reader does not return at all - it panics (a broken
+	// driver, a nil map in somebody's wrapper); the panic travels through
+	// the library to the caller, who recovers and goes on using its keys.
+	ErrPanic
 )
+
+// DevicePanicMsg is the value a device of kind ErrPanic panics with.
+const DevicePanicMsg = "simulated entropy device: the reader panicked"
 
 // TemporaryError is the transient device error.
 type TemporaryError struct{}
@@ -229,6 +236,8 @@ func (d *Device) err() error {
 		return io.ErrUnexpectedEOF
 	case ErrTemporary:
 		return TemporaryError{}
+	case ErrPanic:
+		panic(DevicePanicMsg)
 	default:
 		return ErrDevice
 	}
@@ -358,7 +367,7 @@ func (c DevCfg) Summary() string {
 		s += " filled-by-helper-goroutine+stack-move"
 	}
 	if c.ErrAt >= 0 {
-		k := [...]string{"?", "EOF", "ErrUnexpectedEOF", "custom", "temporary"}[c.ErrKind]
+		k := [...]string{"?", "EOF", "ErrUnexpectedEOF", "custom", "temporary", "PANIC"}[c.ErrKind]
 		s += fmt.Sprintf(" err@%d=%s", c.ErrAt, k)
 		if c.ErrWithData {
 			s += "+data"
